@@ -516,12 +516,18 @@ class DataFileManager:
           pyarrow's schema projection.
         - Required (non-nullable) fields must be present and non-None; pyarrow's
           from_pylist does not enforce nullability, so we must.
-        Type mismatches are left to pyarrow, which raises on incompatible values.
+        - Non-integral floats for int/long columns raise (pyarrow would truncate).
+        Other type mismatches are left to pyarrow, which raises on incompatible values.
         """
         # Schema.__post_init__ guarantees every field has a "name".
         allowed = {str(f["name"]) for f in iceberg_schema.fields}
         required = {
             str(f["name"]) for f in iceberg_schema.fields if f.get("required", False)
+        }
+        # pyarrow converts a Python float to an integer column by TRUNCATING it
+        # (1.5 -> 1) without an error, so a fractional value must be refused here.
+        integral = {
+            str(f["name"]) for f in iceberg_schema.fields if f.get("type") in ("int", "long")
         }
 
         for i, record in enumerate(records):
@@ -535,6 +541,13 @@ class DataFileManager:
                 if record.get(name) is None:
                     raise ValueError(
                         f"Record {i} is missing required field '{name}' (or it is None)"
+                    )
+            for name in integral:
+                value = record.get(name)
+                if isinstance(value, float) and not value.is_integer():
+                    raise ValueError(
+                        f"Record {i}: field '{name}' is an integer column but the value "
+                        f"{value!r} is not integral. Refusing to silently truncate it."
                     )
 
     def write_data_file(
